@@ -26,6 +26,7 @@ func runC12(c *core.Ctx) {
 	runC12Cursor(k)
 	runC12More(k)
 	runC12Num(k)
+	runC12Opts(k)
 }
 
 // appendTo: n is `dst = append(dst, X[...])` or `dst = f(dst, …)`; returns the call.
